@@ -25,6 +25,7 @@ from sa.pyfront import Program
 from sa.symex import Interp, flat_guards
 
 RULES = {
+    "R-C01-i": "the value mapping is applied exactly when one is given: with a mapping, the key of every construction store, the caller's explicit common value and the counts that elect the common value all go through it (counts by accumulation); without one, none does; to_array sizes its dtype from the entries' VALUES (coords[0])",
     "R-C01-h": "from_array and to_array leave the array, the counts mapping and the value mapping passed to them unchanged (imported from the C17 frame analysis): a second construction from the same caller-supplied counts then sees what the caller built",
     "R-C01-g": "from_array builds its result in one place: no early return of a ready-made index (an entry-less index returned because the data has a single distinct value is wrong whenever the caller-chosen common value is another one)",
     "R-C01-f": "the dtype ladder that to_array relies on (fit_dtype) contains [min, max] in every leaf - imported from the C19 analysis",
@@ -321,6 +322,70 @@ def rule_g(prog, rep):
             rep.undecided("R-C01-g", w, cons, "an early return whose index is not the one built from the scan; cannot decide that it holds every uncommon row")
 
 
+def rule_i(prog, rep):
+    fi = prog.func("iindexes", "iindex.from_array")
+    where = fi.fq
+    mapping, common = tm.param("mapping"), tm.param("common")
+    for given in (True, False):
+        def oracle(t, given=given):
+            if t.op == "cmp" and t.args[0] in ("is", "is not") and mapping in t.args[1:] and tm.NONE in t.args[1:]:
+                return (t.args[0] == "is") != given
+            if t == mapping:
+                return given
+            return None
+        I = Interp(prog, hints.param_types_for("iindexes"), hints.FIELD_TYPES, inline=False, oracle=oracle)
+        I.run(fi)
+        label = "with a mapping" if given else "without a mapping"
+        wh = [e for e in I.events if e.kind == "store_sub" and any(b.op == "alloc" and b.args[0] == "dict" for b in tm.alts(e["base"])) and tm.contains(e["value"], lambda x: x.op == "call" and tm.callee_name(x) in ("numpy.where", "numpy.flatnonzero", "numpy.nonzero", ".nonzero"))]
+        sc = [e for e in I.events if e.kind == "call" and e["method"] == "append" and e["recv"] is not None and e["recv"].op == "sub"
+              and any(b.op == "call" and tm.callee_name(b) == "collections.defaultdict" for b in tm.alts(e["recv"].args[0]))]
+        if len(wh) != 2 or len(sc) != 2:
+            rep.undecided("R-C01-i", where, "construction stores (%s)" % label, "expected 2 + 2 stores, found %d + %d" % (len(wh), len(sc)))
+            continue
+        for ev in wh + sc:
+            key = ev["index"] if ev.kind == "store_sub" else ev["recv"].args[1]
+            k0 = key.args[0] if key.op == "tuple" else key
+            m = is_mapped(k0)
+            branch = "numpy.where" if ev.kind == "store_sub" else "row scan"
+            rep.check(m == given, "R-C01-i", "%s@%d" % (where, ev.line), "%s branch, %s: the stored key %s the mapped value" % (branch, label, "is" if given else "is not"), "",
+                      "the key is %s although %s" % ("NOT mapped" if given else "mapped", "a mapping was given" if given else "no mapping was given") + (": the index holds the raw input values" if given else ": mapping[value] on None raises"),
+                      witness={"inputs": "a long sparse array (row-scan path) with mapping={0: 10, 1: 11, ...}: to_array returns the unmapped values" if given else "from_array without a mapping"})
+        if given:
+            # the explicit common value is mapped
+            sg = None
+            for ev in wh + sc:
+                for c, pol in flat_guards(ev.guards):
+                    if c.op == "cmp" and c.args[0] == "==" and not pol:
+                        sg = c.args[2]
+            okc = sg is not None and all(is_mapped(a) or not tm.contains(a, lambda x: x == common) for a in tm.alts(sg)) and any(is_mapped(a) for a in tm.alts(sg))
+            rep.check(okc, "R-C01-i", where, "with a mapping, a caller-chosen common value is mapped too before it is compared with mapped values", "common = mapping[common]",
+                      "the common value compared with the mapped values is %s" % (tm.show(sg)[:60] if sg is not None else "?"),
+                      witness={"inputs": "from_array([0, 1, 1], common=0, mapping={0: 5, 1: 6}): rows of value 0 are stored under 5 although 5 is the common value"})
+            # counts are accumulated per mapped value
+            acc = [e for e in I.events if e.kind == "store_sub" and e["aug"] == "+" and is_mapped(e["index"]) and any(b.op == "call" and tm.callee_name(b) == "collections.defaultdict" for b in tm.alts(e["base"]))]
+            rep.check(len(acc) >= 1 and all(e.loops for e in acc), "R-C01-i", where, "with a mapping, the counts that elect the common value are accumulated per mapped value", "final_counts[mapping[v]] += c",
+                      "no accumulating store keyed by the mapped value: the election runs over an empty / unmapped table",
+                      witness={"inputs": "from_array(a, mapping=m) without common: the lowest mapped value is taken instead of the most frequent one"})
+    # to_array: the list that sizes the dtype holds the entries' values
+    fi2 = prog.func("iindexes", "iindex.to_array")
+    I2 = Interp(prog, hints.param_types_for("iindexes"), hints.FIELD_TYPES, inline=False)
+    I2.run(fi2)
+    comps = set()
+    for e in I2.events:
+        if e.kind == "call" and e["name"] == "iindexes:fit_dtype":
+            for a in e["args"]:
+                for x in tm.walk(a):
+                    if x.op == "comp" and x.args[0] == "list" and tm.contains(x.args[1], lambda y: y.op == "iter" and y.args[0] == tm.param("self")):
+                        comps.add(x)
+    for x in comps:
+        el = x.args[1]
+        ok = el.op == "sub" and tm.is_const(el.args[1], 0)
+        rep.check(ok, "R-C01-i", fi2.fq, "to_array: the dtype is sized from the entries' values (coords[0] for coords in self)", "", "the list holds %s" % tm.show(el)[:40],
+                  witness={"inputs": "a 2-D index whose values exceed its column numbers: the dtype is chosen from the column numbers and the values overflow"})
+    if not comps:
+        rep.undecided("R-C01-i", fi2.fq, "to_array: values that size the dtype", "no list of entry values reaches fit_dtype")
+
+
 def main(tier):
     rep = core.Report("C01", level="other", rules=RULES, tier=tier,
                       declined="the round trip equals the input element for element, for every array and option (values); only four structural necessary conditions are decided")
@@ -333,6 +398,7 @@ def main(tier):
     rule_d(prog, rep)
     rule_e(prog, rep)
     rule_g(prog, rep)
+    rule_i(prog, rep)
     import c17
     st17 = {"events": 0, "mods": 0, "diagnostic": {}, "exceptions": {}, "regions": 0, "shortcuts": 0}
     for q17 in ("iindex.from_array", "iindex.to_array"):
